@@ -73,3 +73,16 @@ package binary
 //@   property C01
 //@   ensures every_field_must_be_trivial: typeof(t) == *dsl.RecordDefinition && t.(*dsl.RecordDefinition) != nil ==> emitted("IsTriviallySerializable<decltype(__T__::%s)>::value") == old(len(t.(*dsl.RecordDefinition).Fields)) && (forall k in 0..old(len(t.(*dsl.RecordDefinition).Fields)) :: emittedArg("IsTriviallySerializable<decltype(__T__::%s)>::value", k, 0, string) == common.FieldIdentifierName(old(t.(*dsl.RecordDefinition).Fields[k].Name)))
 //@   ensures size_is_sum_of_all_fields: typeof(t) == *dsl.RecordDefinition && t.(*dsl.RecordDefinition) != nil && old(len(t.(*dsl.RecordDefinition).Fields)) > 0 ==> emitted("(sizeof(__T__) == (") == 1 && emitted("sizeof(__T__::%s)") == old(len(t.(*dsl.RecordDefinition).Fields)) && (forall k in 0..old(len(t.(*dsl.RecordDefinition).Fields)) :: emittedArg("sizeof(__T__::%s)", k, 0, string) == common.FieldIdentifierName(old(t.(*dsl.RecordDefinition).Fields[k].Name)))
+
+// docs/reference/binary.md: a stream is a sequence of blocks, and only the last block may have length 0 (it ends the
+// stream). The batch overload of a stream step therefore writes nothing at all for an empty batch.
+//@ func writeProtocolMethods
+//@   property C01
+//@   requires p != nil
+//@   iteration 0: batch_writer_skips_an_empty_batch: (lastResult("dsl.(*ProtocolStep).IsStream") ==> emitted("if (!values.empty()) {\n") == 1) && (!lastResult("dsl.(*ProtocolStep).IsStream") ==> emitted("if (!values.empty()) {\n") == 0)
+// writeChangeSwitchCase prints the per-version switch around the three printers it is given and calls nothing else
+// dynamically (checked on its SSA).
+//@ callback-parametric func writeChangeSwitchCase
+
+// Output and diagnostics may not depend on the iteration order of a Go map (C12): decided per `range` over a map.
+//@ map-order C12 package
